@@ -95,6 +95,9 @@ impl Stats {
                 _ => {}
             }
         }
+        for f in &sc.hidden_faults {
+            self.fired[f.index()] += 1;
+        }
         if let Some(s) = &sc.stream {
             for f in &s.faults {
                 self.fired[f.index()] += 1;
@@ -266,4 +269,13 @@ impl AbsNode {
         }
         6
     }
+}
+
+/// one hash per run: the per-node abstract histories, in node order
+pub fn combined_history(abs: &[AbsNode]) -> u64 {
+    let mut h = Fnv::default();
+    for a in abs {
+        h.write_u64(a.history_hash());
+    }
+    h.0
 }
